@@ -13,6 +13,68 @@ macro_rules! src {
 macro_rules! model_prelude {
     () => { use tokio::Now as _; };
 }
+/// `topic!` without core::fmt (see /verif/gen/deasync.py): the pieces are concatenated with '/' exactly as
+/// worterbuch_common::topic! does, each piece rendered as its `Display` would render it.
+macro_rules! vtopic {
+    ($first:expr $(, $rest:expr)*) => {{
+        let mut s = String::new();
+        $crate::topic_model::TopicPiece::push_to(&$first, &mut s);
+        $(
+            s.push('/');
+            $crate::topic_model::TopicPiece::push_to(&$rest, &mut s);
+        )*
+        s
+    }};
+}
+pub mod topic_model {
+    use worterbuch_common::{ClientId, KeySegment};
+    pub trait TopicPiece {
+        fn push_to(&self, s: &mut String);
+    }
+    impl<T: TopicPiece + ?Sized> TopicPiece for &T {
+        fn push_to(&self, s: &mut String) {
+            (**self).push_to(s)
+        }
+    }
+    impl TopicPiece for str {
+        fn push_to(&self, s: &mut String) {
+            s.push_str(self)
+        }
+    }
+    impl TopicPiece for String {
+        fn push_to(&self, s: &mut String) {
+            s.push_str(self)
+        }
+    }
+    impl TopicPiece for KeySegment {
+        fn push_to(&self, s: &mut String) {
+            s.push_str(self.as_ref())
+        }
+    }
+    /// `Display` of a Uuid: lower-case hex, hyphenated 8-4-4-4-12
+    impl TopicPiece for ClientId {
+        fn push_to(&self, s: &mut String) {
+            const HEX: &[u8; 16] = b"0123456789abcdef";
+            let b = self.as_bytes();
+            // (unrolled: a 16-iteration loop would need its own unwinding bound in every harness)
+            macro_rules! hx {
+                ($i:expr) => {
+                    s.push(HEX[(b[$i] >> 4) as usize] as char);
+                    s.push(HEX[(b[$i] & 0xf) as usize] as char);
+                };
+            }
+            hx!(0); hx!(1); hx!(2); hx!(3);
+            s.push('-');
+            hx!(4); hx!(5);
+            s.push('-');
+            hx!(6); hx!(7);
+            s.push('-');
+            hx!(8); hx!(9);
+            s.push('-');
+            hx!(10); hx!(11); hx!(12); hx!(13); hx!(14); hx!(15);
+        }
+    }
+}
 macro_rules! aw {
     ($e:expr) => { $e };
 }
